@@ -17,6 +17,11 @@ inductive Ans where
   | wrote (k : Nat)
   deriving Repr, DecidableEq
 
+/-- Bytes an answer reports as transferred. -/
+def Ans.count : Ans → Nat
+  | .err => 0
+  | .wrote k => k
+
 /-- Effect of `pwrite(fd, v[n:], off+n)` that transferred `k` bytes: byte `j` of `v[n:]` lands at offset `off+n+j`. -/
 def pwriteAt (f : File) (v : List Byte) (off n k : Nat) : File :=
   fun i => if off + n ≤ i ∧ i < off + n + k then v.getD (i - off) 0 else f i
